@@ -4,6 +4,7 @@ import (
 	"github.com/XiXi-2024/xixi-kv/datafile"
 	"github.com/XiXi-2024/xixi-kv/fio"
 	"github.com/XiXi-2024/xixi-kv/utils"
+	"github.com/XiXi-2024/xixi-kv/verifhook"
 	"io"
 	"os"
 	"path/filepath"
@@ -51,17 +52,20 @@ func (db *DB) Merge() error {
 
 	// 由于采用操作临时目录方式, 故允许提前释放锁
 	db.mu.Unlock()
+	verifhook.Point("merge.rotated", nil)
 
 	// 获取 merge 临时目录路径
 	mergePath := db.mergePath()
 	// 如果存在上次 merge 的残留目录, 将其删除
 	if _, err := os.Stat(mergePath); err == nil {
+		verifhook.FS(verifhook.FSRemoveAll, mergePath, "")
 		if err := os.RemoveAll(mergePath); err != nil {
 			return err
 		}
 	}
 
 	// 新建 merge 临时目录
+	verifhook.FS(verifhook.FSMkdirAll, mergePath, "")
 	if err := os.MkdirAll(mergePath, os.ModePerm); err != nil {
 		return err
 	}
@@ -101,6 +105,7 @@ func (db *DB) Merge() error {
 				}
 				return err
 			}
+			verifhook.Point("merge.scan", logRecord.Key)
 			// 比较内存中索引的最新数据, 判断是否为有效数据
 			pos := db.index.Get(logRecord.Key)
 			if pos != nil && pos.Fid == dataFile.ID &&
@@ -121,6 +126,7 @@ func (db *DB) Merge() error {
 						_ = file.Close()
 					}
 					_ = mergeDB.activeFile.Close()
+					verifhook.FS(verifhook.FSRemoveAll, mergePath, "")
 					_ = os.RemoveAll(mergePath)
 					return ErrMergeFileIDConflict
 				}
@@ -133,6 +139,7 @@ func (db *DB) Merge() error {
 	}
 
 	// 将重写的数据文件和 hint 文件持久化
+	verifhook.Point("merge.scanned", nil)
 	if err := hintFile.Close(); err != nil {
 		return err
 	}
@@ -232,6 +239,7 @@ func (db *DB) loadMergeFiles() (uint32, error) {
 		for fileID := rewritten; fileID < mergeID; fileID++ {
 			destName := datafile.GetFileName(db.options.DirPath, fileID, datafile.DataFileSuffix)
 			if _, err := os.Stat(destName); err == nil {
+				verifhook.FS(verifhook.FSRemove, destName, "")
 				if err = os.Remove(destName); err != nil {
 					return 0, err
 				}
@@ -245,6 +253,7 @@ func (db *DB) loadMergeFiles() (uint32, error) {
 				continue
 			}
 			destName := datafile.GetFileName(db.options.DirPath, fileID, datafile.DataFileSuffix)
+			verifhook.FS(verifhook.FSRename, srcFile, destName)
 			if err := os.Rename(srcFile, destName); err != nil {
 				return 0, err
 			}
@@ -255,12 +264,14 @@ func (db *DB) loadMergeFiles() (uint32, error) {
 	srcHintFile := datafile.GetFileName(mergePath, 0, datafile.HintFileSuffix)
 	destHintFile := datafile.GetFileName(db.options.DirPath, 0, datafile.HintFileSuffix)
 	if _, err := os.Stat(srcHintFile); err == nil {
+		verifhook.FS(verifhook.FSRename, srcHintFile, destHintFile)
 		if err := os.Rename(srcHintFile, destHintFile); err != nil {
 			return 0, err
 		}
 	}
 
 	// 全部完成后才可删除 merge 目录, 中途失败时必须保留以便重试
+	verifhook.FS(verifhook.FSRemoveAll, mergePath, "")
 	if err := os.RemoveAll(mergePath); err != nil {
 		return 0, err
 	}
